@@ -366,7 +366,7 @@ fn exec_sched(sc: &Scenario) -> Report {
             let started = started.clone();
             let completed = completed.clone();
             let violations = violations.clone();
-            handles.push(verif_simrt::thread::spawn(move || {
+            handles.push(verif_simrt::thread::spawn_named("user", move || {
                 run_thread_ops(&h, &ops, &started, &completed, monotone, &violations, ti);
                 drop(h);
             }));
